@@ -84,6 +84,8 @@ def prepare():
         var=Float[N, "*v c"],
         int_tree=PyTree[int, "S"],
         arr_tree=PyTree[Float[N, "a b"]],
+        nested_tree=PyTree[PyTree[Float[N, "a"]]],
+        nested_q=PyTree[PyTree[Shaped[N, "?n"]], "T"],
     )
 
     @jaxtyped(typechecker=typeguard.typechecked)
@@ -170,6 +172,16 @@ def op_tuptree(k=0):
     return ctx(body)
 
 
+def op_nested(k=0):
+    def body():
+        good = [[A(2 + k), A(2 + k)], (A(2 + k),)]
+        bad = [[A(2 + k), A(3 + k)]]
+        q = [[A(2), A(2)], A(3 + k)]
+        return (real.check(good, _ANN["nested_tree"]), real.check(bad, _ANN["nested_tree"]), real.check(q, _ANN["nested_q"]), real.check([A(2, dt="int32")], _ANN["nested_tree"])), real.raw_transcript()
+
+    return ctx(body)
+
+
 def op_error_message(k=0):
     try:
         _ANN["bad"](A(2 + k, 3), A(4 + k))
@@ -200,8 +212,8 @@ def pr_struct(k=0):
     return ctx(lambda: (real.check((1, 2), _ANN["int_tree"]), real.check((1, (2, 3)), _ANN["int_tree"]), real.raw_transcript()))
 
 
-OPS = {"qtree": op_qtree, "rollback": op_rollback, "call": op_call, "block": op_block, "tuptree": op_tuptree, "errmsg": op_error_message}
-PROBES = {"wrong_dtype": pr_wrong_dtype, "question_outside": pr_question_outside, "same_name": pr_same_name, "toplevel": pr_toplevel, "struct": pr_struct, "call": op_call, "qtree": op_qtree}
+OPS = {"qtree": op_qtree, "rollback": op_rollback, "call": op_call, "block": op_block, "tuptree": op_tuptree, "errmsg": op_error_message, "nested": op_nested}
+PROBES = {"wrong_dtype": pr_wrong_dtype, "question_outside": pr_question_outside, "same_name": pr_same_name, "toplevel": pr_toplevel, "struct": pr_struct, "call": op_call, "qtree": op_qtree, "nested": op_nested}
 ALL = dict(OPS, **{"pr_" + k: v for k, v in PROBES.items()})
 
 
